@@ -6,6 +6,7 @@
    Also remux.GopCache.Feed (classification calls only; the ring is C02's).
    No proofs here. *)
 From Lal Require Export Media.MediaMsgChecked Media.MediaDummyAudio Media.MediaTsRemux Media.MediaRtspRemux.
+From Lal Require Net.NetRtpHeader.
 Open Scope N_scope.
 
 (* SPS parsers for the statistics block: Ok None = error return, Ok (Some (w, h)) *)
@@ -22,10 +23,14 @@ Record grp_cfg := mk_gcfg {
   gc_ts : bool;            (* hls || httpts || record mpegts: the mpegts remuxer exists *)
   gc_rtsp : bool;
   gc_dummy : option N;     (* add_dummy_audio_enable with its wait (ms) *)
-  gc_add : bool            (* remux.RtspRemuxerAddSpsPps2KeyFrameFlag *)
+  gc_add : bool;           (* remux.RtspRemuxerAddSpsPps2KeyFrameFlag *)
+  gc_rtsp_wait : bool      (* RtspConfig.OutWaitKeyFrameFlag *)
 }.
 
 Record sub := mk_sub { sb_fresh : bool; sb_wait : bool }.
+
+(* an rtsp consumer: stage == ReadPlay, ShouldWaitVideoKeyFrame *)
+Record rsub := mk_rsub { rb_play : bool; rb_wait : bool }.
 
 Record grp_st := mk_grp {
   g_ts : ts_st;
@@ -37,9 +42,11 @@ Record grp_st := mk_grp {
   g_flv_hasgop : bool;
   g_acodec : bool;         (* stat.AudioCodec != "" *)
   g_vcodec : bool;
-  g_w : N; g_h : N
+  g_w : N; g_h : N;
+  g_sdp : option (bool * N);   (* group.sdpCtx: (RawSdp non-nil, video payload type 0 other / 1 avc / 2 hevc) *)
+  g_rsubs : list rsub          (* rtspSubSessionSet *)
 }.
-Definition grp_init : grp_st := mk_grp ts_init rtsp_init dummy_init [] [] false false false false 0 0.
+Definition grp_init : grp_st := mk_grp ts_init rtsp_init dummy_init [] [] false false false false 0 0 None [].
 
 (* remux.GopCache.Feed: (cache now holds a GOP?) *)
 Definition gop_feed (fx : fixes) (gop : bool) (has : bool) (m : mmsg) : res bool :=
@@ -117,6 +124,40 @@ Definition stat_step (fx : fixes) (rf : rec_fns) (sf : sps_fns) (g : grp_st) (m 
 Definition msg_cost (m : mmsg) : N := 1 + lenN (mm_pay m).
 Definition msgs_cost (l : list mmsg) : N := fold_right (fun m acc => msg_cost m + acc) 0 l.
 
+(* Group.feedRtpPacket on one packet body (rtprtcp.IsAvcBoundary / IsHevcBoundary: the C13 models, panic sites
+   renamed): only sessions in stage ReadPlay that still wait look at the packet; the boundary is computed once,
+   and only when such a session exists *)
+Definition rtp_boundary (fx : fixes) (kind : N) (body : bytes) : res bool :=
+  if kind =? 1 then
+    match NetRtpHeader.is_avc_boundary (fx_bound fx) body with
+    | Panic _ => Panic s_avc_boundary | r => r end
+  else if kind =? 2 then
+    match NetRtpHeader.is_hevc_boundary (fx_bound fx) body with
+    | Panic _ => Panic s_hevc_boundary | r => r end
+  else Ok true.
+
+Definition feed_rtp (fx : fixes) (wk : bool) (sdp : option (bool * N)) (subs : list rsub) (body : bytes) : res (list rsub) :=
+  if negb wk then Ok subs
+  else if existsb (fun r => rb_play r && rb_wait r) subs then
+    let* bd := (match sdp with Some (_, kind) => rtp_boundary fx kind body | None => Ok false end) in
+    Ok (if bd then map (fun r => if rb_play r && rb_wait r then mk_rsub true false else r) subs else subs)
+  else Ok subs.
+
+Fixpoint feed_rtp_all (fx : fixes) (wk : bool) (sdp : option (bool * N)) (subs : list rsub) (l : list bytes) : res (list rsub) :=
+  match l with
+  | [] => Ok subs
+  | b :: t => let* s' := feed_rtp fx wk sdp subs b in feed_rtp_all fx wk sdp s' t
+  end.
+
+(* what Rtmp2RtspRemuxer hands back to the group: onSdpFromRemux, onRtpPacketFromRemux *)
+Fixpoint rtsp_events (fx : fixes) (wk : bool) (sdp : option (bool * N)) (subs : list rsub) (evs : list rtsp_ev)
+  : res (option (bool * N) * list rsub) :=
+  match evs with
+  | [] => Ok (sdp, subs)
+  | RevSdp v k :: t => rtsp_events fx wk (Some (v, k)) subs t
+  | RevRtp l :: t => let* s' := feed_rtp_all fx wk sdp subs l in rtsp_events fx wk sdp s' t
+  end.
+
 (* the pieces of Group.broadcastByRtmpMsg, in call order *)
 Definition bc_meta (acfg : amf_cfg) (m : mmsg) : res unit :=
   if mm_type m =? t_meta then
@@ -124,8 +165,13 @@ Definition bc_meta (acfg : amf_cfg) (m : mmsg) : res unit :=
   else Ok tt.
 Definition bc_ts (fx : fixes) (cf : codec_fns) (c : grp_cfg) (g : grp_st) (m : mmsg) : res ts_st :=
   if gc_ts c then let* (t, _) := ts_feed fx cf (g_ts g) m in Ok t else Ok (g_ts g).
-Definition bc_rtsp (fx : fixes) (rf : rec_fns) (acfg : amf_cfg) (c : grp_cfg) (g : grp_st) (m : mmsg) : res rtsp_st :=
-  if gc_rtsp c then let* (r, _) := rtsp_feed fx rf acfg (gc_add c) (g_rtsp g) m in Ok r else Ok (g_rtsp g).
+Definition bc_rtsp (fx : fixes) (rf : rec_fns) (acfg : amf_cfg) (c : grp_cfg) (g : grp_st) (m : mmsg)
+  : res (rtsp_st * (option (bool * N) * list rsub)) :=
+  if gc_rtsp c then
+    let* (r, evs) := rtsp_feed fx rf acfg (gc_add c) (g_rtsp g) m in
+    let* x := rtsp_events fx (gc_rtsp_wait c) (g_sdp g) (g_rsubs g) evs in
+    Ok (r, x)
+  else Ok (g_rtsp g, (g_sdp g, g_rsubs g)).
 Definition bc_rgop (fx : fixes) (c : grp_cfg) (g : grp_st) (m : mmsg) : res bool :=
   if gc_rtmp c then gop_feed fx (gc_rtmp_gop c) (g_rtmp_hasgop g) m else Ok (g_rtmp_hasgop g).
 Definition bc_fgop (fx : fixes) (c : grp_cfg) (g : grp_st) (m : mmsg) : res bool :=
@@ -147,13 +193,13 @@ Definition broadcast (fx : fixes) (cf : codec_fns) (rf : rec_fns) (sf : sps_fns)
   | [] => Ok (g, 1)
   | _ :: _ =>
     let* ts' := bc_ts fx cf c g m in
-    let* rtsp' := bc_rtsp fx rf acfg c g m in
+    let* (rtsp', (sdp', rsubs')) := bc_rtsp fx rf acfg c g m in
     let* rsubs := subs_step fx (g_rtmp_hasgop g) m (g_rtmp_subs g) in
     let* fsubs := subs_step fx (g_flv_hasgop g) m (g_flv_subs g) in
     let* rgop := bc_rgop fx c g m in
     let* fgop := bc_fgop fx c g m in
     let* (ac, vc, w, h) := stat_step fx rf sf g m in
-    Ok (mk_grp ts' rtsp' (g_dummy g) rsubs fsubs rgop fgop ac vc w h, bc_cost g m ts' rtsp')
+    Ok (mk_grp ts' rtsp' (g_dummy g) rsubs fsubs rgop fgop ac vc w h sdp' rsubs', bc_cost g m ts' rtsp')
   end.
 
 Fixpoint broadcast_all (fx : fixes) (cf : codec_fns) (rf : rec_fns) (sf : sps_fns) (acfg : amf_cfg) (c : grp_cfg)
@@ -168,7 +214,8 @@ Inductive gev : Type :=
 | GPub (m : mmsg)
 | GJoinRtmp
 | GJoinFlv
-| GJoinOther.      (* http-ts / rtsp / hls consumers: no state the payload helpers depend on *)
+| GJoinRtsp        (* DESCRIBE; SETUP + PLAY follow as soon as the group has a description (after this event or a publish) *)
+| GJoinOther.      (* http-ts / hls consumers: no state the payload helpers depend on *)
 
 (* Group.OnReadRtmpAvMsg *)
 Definition on_read (fx : fixes) (cf : codec_fns) (rf : rec_fns) (sf : sps_fns) (acfg : amf_cfg) (c : grp_cfg)
@@ -178,20 +225,33 @@ Definition on_read (fx : fixes) (cf : codec_fns) (rf : rec_fns) (sf : sps_fns) (
   | Some wait =>
     let* (outs, d') := dummy_feed fx wait (g_dummy g) m in
     let g1 := mk_grp (g_ts g) (g_rtsp g) d' (g_rtmp_subs g) (g_flv_subs g) (g_rtmp_hasgop g) (g_flv_hasgop g)
-                     (g_acodec g) (g_vcodec g) (g_w g) (g_h g) in
+                     (g_acodec g) (g_vcodec g) (g_w g) (g_h g) (g_sdp g) (g_rsubs g) in
     broadcast_all fx cf rf sf acfg c g1 outs (msg_cost m)
   end.
 
 Definition join_sub (g : grp_st) : sub := mk_sub true (g_vcodec g).
 
+Definition set_rsubs (g : grp_st) (l : list rsub) : grp_st :=
+  mk_grp (g_ts g) (g_rtsp g) (g_dummy g) (g_rtmp_subs g) (g_flv_subs g) (g_rtmp_hasgop g) (g_flv_hasgop g)
+         (g_acodec g) (g_vcodec g) (g_w g) (g_h g) (g_sdp g) l.
+
+(* the rtsp client side of the harness: every session that has not sent PLAY yet does so once the group has a
+   description (HandleNewRtspSubSessionPlay: it waits for a GOP start iff a video codec is known) *)
+Definition try_play (g : grp_st) : grp_st :=
+  match g_sdp g with
+  | Some (true, _) => set_rsubs g (map (fun r => if rb_play r then r else mk_rsub true (rb_wait r && g_vcodec g)) (g_rsubs g))
+  | _ => g
+  end.
+
 Definition gstep (fx : fixes) (cf : codec_fns) (rf : rec_fns) (sf : sps_fns) (acfg : amf_cfg) (c : grp_cfg)
            (g : grp_st) (e : gev) : res (grp_st * N) :=
   match e with
-  | GPub m => on_read fx cf rf sf acfg c g m
+  | GPub m => let* (g', k) := on_read fx cf rf sf acfg c g m in Ok (try_play g', k)
   | GJoinRtmp => Ok (mk_grp (g_ts g) (g_rtsp g) (g_dummy g) (g_rtmp_subs g ++ [join_sub g]) (g_flv_subs g) (g_rtmp_hasgop g) (g_flv_hasgop g)
-                            (g_acodec g) (g_vcodec g) (g_w g) (g_h g), 0)
+                            (g_acodec g) (g_vcodec g) (g_w g) (g_h g) (g_sdp g) (g_rsubs g), 0)
   | GJoinFlv => Ok (mk_grp (g_ts g) (g_rtsp g) (g_dummy g) (g_rtmp_subs g) (g_flv_subs g ++ [join_sub g]) (g_rtmp_hasgop g) (g_flv_hasgop g)
-                           (g_acodec g) (g_vcodec g) (g_w g) (g_h g), 0)
+                           (g_acodec g) (g_vcodec g) (g_w g) (g_h g) (g_sdp g) (g_rsubs g), 0)
+  | GJoinRtsp => Ok (try_play (set_rsubs g (g_rsubs g ++ [mk_rsub false true])), 0)
   | GJoinOther => Ok (g, 0)
   end.
 
